@@ -55,6 +55,15 @@ def step (st : St) (op impl : List String) : St × List String :=
     (if impl == ["EOF"] then { st with eofs := (nat side, nat si) :: st.eofs } else st, v)
   | ["inject", kind, _side, _at] => ({ st with injected := kind }, [])
   | ["abortcall", side] => ({ st with aborter := some (nat side) }, [])
+  | ["idleread", side, si] =>
+    -- a reader that was idle (deadline armed, no Read blocked) during the teardown, came back after the deadline had
+    -- expired, set a new deadline and read: it must get the stream's TERMINAL error at once
+    match impl with
+    | r :: t :: _ =>
+      (st, (if r == "read-deadline-exceeded" then [s!"[C09] side {side} stream {si}: after the teardown a read keeps failing with the read-deadline error: the terminal (close / abort) error of the stream was replaced by a late deadline expiry"] else []) ++
+           (if nat t > 6000 then [s!"[C09] side {side} stream {si}: a read issued after the teardown returned only after {t} ms"] else []))
+    | _ => (st, [])
+  | ["idleunblocked"] => (st, [s!"[C09] a read issued after the teardown (new deadline set after an old one expired) never returned: the terminal error of the stream is gone"])
   | ["readerspin", side, si] =>
     (st, [s!"[C18,C09] side {side} stream {si}: more than 5000 consecutive read-deadline errors on a stream that will never get data or an error ({" ".intercalate impl})"])
   | ["closecall", side] => ({ st with closeCalled := nat side :: st.closeCalled }, [])
